@@ -1,6 +1,8 @@
 (* Extraction of the report model (C05, C18) for the correspondence driver.
    ExtrOcamlBasic only; no Extract Constant; N/Z/positive/nat stay Coq datatypes. *)
 From Coq Require Import Extraction ExtrOcamlBasic.
-From Robsd Require Import Report.ReportFixture.
+From Robsd Require Import Report.ReportFixture Report.ReportSpec Report.DurationSpec.
 Extraction Language OCaml.
-Extraction "rp_model.ml" run_fixture sh_total_fixture.
+Extraction "rp_model.ml" run_fixture sh_total_fixture
+  spec_ok_exit spec_ok_status spec_ok_sections spec_ok_body spec_ok_sane
+  spec_ok_total spec_ok_step_duration spec_ok_sizes spec_ok_shell.
